@@ -187,15 +187,15 @@ func verifChoice(n int) int {
 }
 
 // Scheduler / monitor controls: no-ops natively.
-func verifYield()                 {}
-func verifQuiesce()               {}
-func verifGoroutinesAlive() int   { return 0 }
-func verifPanicEvents() int       { return 0 }
-func verifSymbolic() bool         { return false }
-func verifRaces() int             { return 0 }
-func verifHB(on bool)             {}
-func verifMapOrder(rev bool)      {}
-func verifPreemptBound(n int)     {}
+func verifYield()                        {}
+func verifQuiesce()                      {}
+func verifGoroutinesAlive() int          { return 0 }
+func verifPanicEvents() int              { return 0 }
+func verifSymbolic() bool                { return false }
+func verifRaces() int                    { return 0 }
+func verifHB(on bool)                    {}
+func verifMapOrder(rev bool)             {}
+func verifPreemptBound(n int)            {}
 func verifIsConcrete(x interface{}) bool { return true }
 
 // verifSleeps returns the durations passed to time.Sleep so far (engine only).
